@@ -169,7 +169,7 @@ class FpyPath(Path):
         self.fpy_ctx: list = []          # ambient-context stack; non-empty while an @fpy body is executed
         self.entry_exprs: dict = {}      # input name -> z3 term that holds its model value (for counterexamples)
         opts = explorer.current.opts if explorer.current is not None else {}
-        self.bounded = opts.get('fpy_rnd') == 'rne'
+        self.bounded = bool(opts.get('fpy_rnd'))      # 'rne' | any mode of pyvc/fpyround.py | 'param' (contract parameter `rm`)
         self.E = int(opts.get('bounded') or 0) if self.bounded else 0
 
     # ------------------------------------------------------------- contexts
@@ -182,6 +182,18 @@ class FpyPath(Path):
         if not isinstance(p, int):
             raise Unsupported('bounded FPy domain needs a concrete precision parameter `p`')
         return p
+
+    def rounding_mode(self) -> str:
+        """rounding mode of the bounded ambient context (pyvc/fpyround.py): the option value, or with
+        'fpy_rnd': 'param' the concrete RoundingMode member bound to the contract parameter `rm`"""
+        from .fpyround import mode_name
+        opt = self.ex.current.opts.get('fpy_rnd')
+        if opt != 'param':
+            return mode_name(opt)
+        rm = self.bound.get('rm') if hasattr(self, 'bound') else None
+        if rm is None or not isinstance(getattr(rm, 'idx', None), int):
+            raise Unsupported("'fpy_rnd': 'param' needs a concrete RoundingMode parameter `rm` (list it in `split`)")
+        return mode_name(self.index.enum_members(rm.cls)[rm.idx][0])
 
     def ctx_of(self, v) -> CtxV:
         """dialect context denoted by a contract-level context value"""
@@ -209,6 +221,12 @@ class FpyPath(Path):
         # ambient context
         if self.bounded:
             p = self.precision()
+            mode = self.rounding_mode()
+            if mode != 'RNE' or self.ex.current.opts.get('fpy_rnd') == 'param':
+                from .fpyround import rnd_fix, rnd_frac
+                if isinstance(v, (int, Fraction)):
+                    return rnd_frac(Fraction(v), p, mode)
+                return rnd_fix(to_fix(v), p, mode)
             if isinstance(v, (int, Fraction)):
                 return rne_frac(Fraction(v), p)
             return rne_fix(to_fix(v), p)
